@@ -14,11 +14,14 @@ abstract cases (generator → Lean):
                  `i:seq/fwd/rev/flip/sp1/sp2` an insert: site sp1 fwd seq rev sp2 rc(site)  (flip: the fragment flipped)
                  `F:`  /  `R:`                a lone forward / reverse recognition site
 requests (Lean → harness):
-  `ligate pool0 pool1 pool2 pool3`           pool = `seq,fwd,rev;…`  (pool0 in the given order, then the three shuffles)
-  `goldengate enzyme parts0 parts1 parts2 parts3`   parts = `seq:C;seq:L;…`
+  `ligate dom pool0 pool1 pool2 pool3`       pool = `seq,fwd,rev;…`  (pool0 in the given order, then the three shuffles);
+                                             dom = true|false: the case is inside the property's quantifier
+  `goldengate dom enzyme parts0 parts1 parts2 parts3`   parts = `seq:C;seq:L;…`
 replies:
   `ok race|norace run0 run1 run2 run3 [cut]`  run = `n:c1:C,c2:C,…` (sequence and Circular flag of every returned Part);
        cut = fragments of CutWithEnzymeByName per part of parts0, `seq,fwd,rev;…|…`
+  `ok not-run h1 h2 h3`  circuit breaker: three in-quantifier calls of THIS run did not return; h = the hung request
+       (`L|pool` or `G|enzyme|parts`); the case was not executed
 -/
 
 def splitList (sep : String) (s : String) : List String := if s.isEmpty then [] else s.splitOn sep
@@ -147,13 +150,19 @@ def render (f : List String) : List String :=
   match f with
   | ["lig", _, frags, p1, p2, p3] =>
     match parsePool frags with
-    | some pool => "ligate" :: poolText pool :: [p1, p2, p3].map fun p => poolText (applyPerm pool (parseNats p))
+    | some pool =>
+      -- first argument: the case is inside the property's quantifier (only such calls may open the harness's circuit breaker)
+      let dom := dnaPool pool && [p1, p2, p3].all fun p => validPerm pool.length (parseNats p)
+      "ligate" :: boolStr dom :: poolText pool :: [p1, p2, p3].map fun p => poolText (applyPerm pool (parseNats p))
     | none => ["bad"]
   | ["gg", _, enz, parts, p1, p2, p3] =>
     -- an unknown enzyme name is passed through (the code must answer with an error); parts are then laid out as for BsaI
     let e := (enzymeOf enz).getD ⟨"GGTCTC".toList, 1⟩
     match parseParts e parts with
-    | some ps => "goldengate" :: enz :: partsText ps :: [p1, p2, p3].map fun p => partsText (applyPerm ps (parseNats p))
+    | some ps =>
+      let dom := (enzymeOf enz).isSome && ps.all (·.wf) && dnaPool (ps.flatMap (·.expect)) &&
+        [p1, p2, p3].all fun p => validPerm ps.length (parseNats p)
+      "goldengate" :: boolStr dom :: enz :: partsText ps :: [p1, p2, p3].map fun p => partsText (applyPerm ps (parseNats p))
     | none => ["bad"]
   | _ => ["bad"]
 
@@ -208,6 +217,7 @@ structure SpecSets where
   simple : List Str       -- … of the simple rings
   pal : List Str          -- … of the rings with a self-complementary junction overhang
   rep : List Str          -- … of the rings with a repeated junction overhang
+  onelap : List Str       -- … of the rings of class `OneLap` (ligate_exact: an independent exact upper bound)
   haveAll : Bool          -- `all`, `pal`, `rep` were enumerated
   nrings : Nat
   enumOk : Bool           -- the two enumerators agree (small pools)
@@ -217,13 +227,20 @@ def hasRepJunction (os : List Oriented) : Bool := (os.map (·.junction)).eraseDu
 
 /-- `needAll = false` (designed assemblies, and pools too large for it): only the simple rings are enumerated — the set
 of ALL closed chains of a library contains every multi-lap concatenation of alternatives and is astronomically larger. -/
-def specSets (needAll : Bool) (pool : List Fragment) : SpecSets :=
+def isOneLap : List Oriented → Bool
+  | ⟨f, false⟩ :: suf => decide (OneLap f suf)
+  | _ => false
+
+def specSets (needAll : Bool) (bruteBound : Nat) (pool : List Fragment) : SpecSets :=
   let vals := pool.eraseDups
   let rw := ringsWalk (!needAll) pool
-  let enumOk := if vals.length ≤ 5 then
-      ringCodes vals (ringsWalk false pool) == ringCodes vals (ringsBrute pool) &&
+  let one := ringsOneLap pool
+  let enumOk := if vals.length ≤ bruteBound then
+      let brute := ringsBrute pool
+      ringCodes vals (ringsWalk false pool) == ringCodes vals brute &&
       ringCodes vals ((ringsWalk true pool).filter fun os => decide (Simple os)) ==
-        ringCodes vals ((ringsBrute pool).filter fun os => decide (Simple os)) &&
+        ringCodes vals (brute.filter fun os => decide (Simple os)) &&
+      ringCodes vals one == ringCodes vals (brute.filter isOneLap) &&
       rw.all (fun os => decide (Ring pool os)) else true
   let simpleRings := rw.filter fun os => decide (Simple os)
   let simple := ringKeys vals simpleRings
@@ -231,6 +248,7 @@ def specSets (needAll : Bool) (pool : List Fragment) : SpecSets :=
   { all, simple,
     pal := if needAll then ringKeys vals (rw.filter hasPalJunction) else [],
     rep := if needAll then ringKeys vals (rw.filter hasRepJunction) else [],
+    onelap := ringKeys vals one,
     haveAll := needAll,
     nrings := (ringCodes vals (if needAll then rw else simpleRings)).length, enumOk }
 
@@ -269,14 +287,20 @@ structure Setup where
 /-- The verdict is decided from the POOL, never from the generator's tag:
 * `designed pool` (Spec/Rings.lean — the property's quantifier): the result must EQUAL the set of simple rings
   (`ligate_designed`); multi-lap concatemers of alternatives are forbidden;
-* any other DNA pool: `simple rings ⊆ result ⊆ all rings` (= equality whenever every ring is simple); pools with more
-  than 9 fragment values that are not designed get the lower bound only (their set of all rings is not enumerated). -/
+* any other DNA pool: `simple rings ⊆ result ⊆ one-lap rings` (`ligate_exact`: an upper bound enumerated independently of the
+  model's recursion) and, for pools of at most 9 fragment values, also `result ⊆ all rings` (the set of ALL closed chains of a
+  larger pool is not enumerated).
+The two ring walks and the one-lap walk are cross-checked against the brute-force enumeration on every pool of at most 5
+fragment values (6 / 7 when the tag contains `bf6` / `bf7`: the tag buys effort, never a verdict). -/
 def judgeRuns (su : Setup) (race : String) (runs : List String) : Verdict :=
   let isDesigned := designed su.poolSpec
   let nvals := su.poolSpec.eraseDups.length
-  let sp := specSets (!isDesigned && nvals ≤ 9) su.poolSpec
+  -- brute force compares whole fragments: on pools with long inserts keep to 5 values
+  let textLen := (su.poolSpec.map fun f => f.seq.length).sum
+  let sp := specSets (!isDesigned && nvals ≤ 9)
+    (if (su.tag.splitOn "bf7").length > 1 then 7 else if (su.tag.splitOn "bf6").length > 1 && textLen ≤ 400 then 6 else 5) su.poolSpec
   let parsed := runs.map parseRun
-  let mode := if isDesigned then "designed" else if sp.haveAll then (if sp.all == sp.simple then "allsimple" else "sandwich") else "lower-bound"
+  let mode := if isDesigned then "designed" else if sp.haveAll then (if sp.all == sp.simple then "allsimple" else "sandwich") else "onelap-bound"
   let flags := (if sp.pal.isEmpty then "" else "+pal") ++ (if sp.rep.isEmpty then "" else "+rep")
   let cls0 := su.kind ++ "/" ++ su.tag ++ "/rings=" ++ bucket sp.nrings ++ "/" ++ mode ++ flags
   let triv := su.poolSpec.length < 2 || sp.nrings == 0
@@ -288,8 +312,10 @@ def judgeRuns (su : Setup) (race : String) (runs : List String) : Verdict :=
     let distinct := sets.all fun s => dedupSorted s == s
     let s0 := sets.headD []
     let stable := sets.all (· == s0)
-    let upper := if isDesigned then sp.simple else sp.all
-    let sound := !(isDesigned || sp.haveAll) || sets.all fun s => subsetSorted s upper
+    let inUpper := fun (s : List Str) =>
+      if isDesigned then subsetSorted s sp.simple
+      else subsetSorted s sp.onelap && (!sp.haveAll || subsetSorted s sp.all)
+    let sound := sets.all inUpper
     let complete := sets.all fun s => subsetSorted sp.simple s
     let circular := rs.all fun cs => cs.all (·.2)
     let keyOk := rs.all fun cs => cs.all fun c => c.1.length > 200 || keyFast c.1 == key c.1
@@ -298,7 +324,7 @@ def judgeRuns (su : Setup) (race : String) (runs : List String) : Verdict :=
     -- where the real result lies
     let missing := sp.all.filter fun k => !s0.contains k
     let where_ := if s0 == sp.simple then "=simple" else if sp.haveAll && s0 == sp.all then "=all"
-      else if subsetSorted sp.simple s0 && subsetSorted s0 upper then "between" else "outside"
+      else if subsetSorted sp.simple s0 && inUpper s0 then (if s0 == sp.onelap then "=onelap" else "between") else "outside"
     let miss := (if missing.any sp.pal.contains then "/missing-ring:pal" else "") ++
       (if missing.any (fun k => sp.rep.contains k && !sp.pal.contains k) then "/missing-ring:repeat" else "")
     let why := (if sound then "" else " spurious-construct") ++ (if complete then "" else " ring-missing") ++
@@ -313,11 +339,35 @@ def judgeRuns (su : Setup) (race : String) (runs : List String) : Verdict :=
         " simple=" ++ joinWith "," (sp.simple.map String.ofList) }
   | _, _ => { corr := false, judge := if su.inDomain then some false else none, cls := cls0 ++ "/bad-reply", detail := "unparsable reply" }
 
+/-- a hung request recorded by the harness's circuit breaker is one that lies in the quantifier (so that its own verdict
+in this run is a judged `timeout` FAIL): `L|pool` with a DNA pool, `G|enzyme|parts` with a known enzyme and ACGT parts -/
+def hungInDomain (h : String) : Bool :=
+  match h.splitOn "|" with
+  | ["L", pool] => match parsePool pool with
+    | some p => dnaPool p
+    | none => false
+  | ["G", enz, parts] =>
+    (enzymeOf enz).isSome && (splitList ";" parts).all fun it =>
+      match it.splitOn ":" with
+      | [w, _] => isDna (upper w.toList)
+      | _ => false
+  | _ => false
+
+/-- `ok not-run …`: the case was not executed.  It is excused (skip, recorded as a correspondence difference) only when the
+reply names three hung in-quantifier requests of this run — each of them is then a judged FAIL of the same run; anything
+else is a failed obligation of the check itself. -/
+def judgeNotRun (hung : List String) : Verdict :=
+  let excused := hung.length ≥ 3 && hung.all hungInDomain
+  { corr := false, judge := if excused then none else some false,
+    cls := if excused then "triv:not-run-after-3-slow-or-hung-calls" else "not-run-without-recorded-hangs",
+    detail := "not executed: the harness's circuit breaker was open (" ++ toString hung.length ++ " recorded hung calls)" }
+
 def sortFrags (l : List Fragment) : List String := (l.map fragText).mergeSort fun a b => a ≤ b
 
 def judge (f out : List String) : Verdict :=
-  -- circuit breaker of the harness (three calls of this run did not return): the case was not executed
-  if out == ["ok", "not-run"] then { corr := true, judge := none, cls := "triv:not-run-after-3-timeouts" } else
+  match out with
+  | "ok" :: "not-run" :: hung => judgeNotRun hung
+  | _ =>
   match f with
   | ["lig", tag, frags, p1, p2, p3] =>
     match parsePool frags with
